@@ -87,3 +87,20 @@ func init() {
 		Assumptions: commonAssumptions,
 	})
 }
+
+func init() {
+	addProp(&PropSpec{
+		ID: "C15", Level: "other",
+		Quick:       []string{"R-PRINT-GRAMMAR", "R-GENERATED"},
+		Explanation: "Decides the shape question completely: print productions are extracted from every String() implementation of types and forms (string-shape domain), their literal text is tokenised through the scanner's statically extracted token table, each is matched with a production of the committed yacc grammar (which is shown to be what the committed parser was generated from, conflict-free), and for every (parent production, child slot, child constructor) triple the yacc precedence/associativity resolution is computed: the printed text re-parses to the same tree, or the printer must bracket the child (helpers are evaluated per child constructor by SCCP). By induction on term structure a term round-trips if every parent/child adjacency does.",
+		NotDecided:  "token boundaries of identifier atoms (a label or name that spells a keyword/mode does not round-trip; excluded by the property), printing of modes by StringWithModality (not a parseable syntax), and Name.String for non-self names with channel numbers/polarities (treated as a closed `name` phrase)",
+		Assumptions: append([]string{"goyacc of x/tools v0.29.0 resolves shift/reduce by the declared precedences as documented for yacc"}, commonAssumptions...),
+		Exhaustive:  true,
+	})
+	ps := propSpecs["C11"]
+	ps.Quick = append(ps.Quick, "R-GENERATED", "R-PARSE-ERR")
+	ps.Explanation += " Additionally: the committed parser is exactly goyacc(parser.y) with no conflicts and no error productions (so at most one syntax error is reported), the error channel has capacity for it, and Parse/ParseReader propagate it."
+	ps = propSpecs["C12"]
+	ps.Quick = append(ps.Quick, "R-GENERATED", "R-KIND-EXH", "R-PARSE-ERR")
+	ps.Explanation += " Additionally: the generated parser is up to date and accepts only on the end marker; every statement kind is kept by expandProcesses; parse errors are propagated by all entry points."
+}
